@@ -193,4 +193,71 @@ def create (encode : List Single → B) (sign : K → B → B) (algOk : Bool) (a
       certs := match embed with | none => [] | some e => [some e] }
 
 end
+
+/-! ### `signingParamsForPublicKey`: which digest is signed, which algorithm identifier is written
+
+  `x509.SignatureAlgorithm` numbers: 1 MD2-RSA, 2 MD5-RSA, 3 SHA1-RSA, 4 SHA256-RSA, 5 SHA384-RSA, 6 SHA512-RSA,
+  7 DSA-SHA1, 8 DSA-SHA256, 9 ECDSA-SHA1, 10 ECDSA-SHA256, 11 ECDSA-SHA384, 12 ECDSA-SHA512, 13..15 RSA-PSS,
+  16 Ed25519.  `crypto.Hash` numbers: 2 MD5, 3 SHA-1, 5 SHA-256, 6 SHA-384, 7 SHA-512.
+  `x509.PublicKeyAlgorithm`: 1 RSA, 2 DSA, 3 ECDSA.
+  The OID column of `signatureAlgorithmDetails` is represented by the row's `algo`: `getSignatureAlgorithmFromOID`
+  maps a row's OID back to its `algo`, and that is what a parsed `Response.SignatureAlgorithm` shows. -/
+
+/-- the arms of the type switch on the signer's public key and of the curve switch. -/
+inductive KeyKind where
+  | rsa | p224 | p256 | p384 | p521 | otherCurve | otherKey
+  deriving Repr, DecidableEq
+
+structure SigRow where
+  algo : Nat   -- x509.SignatureAlgorithm (stands for the row's OID as well)
+  pka  : Nat   -- x509.PublicKeyAlgorithm
+  hash : Nat   -- crypto.Hash; 0 = "no value" (MD2)
+  deriving Repr, DecidableEq
+
+/-- `signatureAlgorithmDetails` of ocsp.go, row for row. -/
+def sigDetails : List SigRow :=
+  [⟨1, 1, 0⟩, ⟨2, 1, 2⟩, ⟨3, 1, 3⟩, ⟨4, 1, 5⟩, ⟨5, 1, 6⟩, ⟨6, 1, 7⟩,
+   ⟨7, 2, 3⟩, ⟨8, 2, 5⟩,
+   ⟨9, 3, 3⟩, ⟨10, 3, 5⟩, ⟨11, 3, 6⟩, ⟨12, 3, 7⟩]
+
+/-- the defaults of the type / curve switch: (public-key algorithm, digest, algorithm written). -/
+def defaultParams : KeyKind → Option (Nat × Nat × Nat)
+  | .rsa => some (1, 5, 4)
+  | .p224 => some (3, 5, 10)
+  | .p256 => some (3, 5, 10)
+  | .p384 => some (3, 6, 11)
+  | .p521 => some (3, 7, 12)
+  | .otherCurve => none     -- "x509: unknown elliptic curve"
+  | .otherKey => none       -- "x509: only RSA and ECDSA keys supported"
+
+/-- `for _, details := range signatureAlgorithmDetails { if details.algo == requestedSigAlgo {…; break} }` -/
+def findRow (req : Nat) : List SigRow → Option SigRow
+  | [] => none
+  | r :: rs => if r.algo = req then some r else findRow req rs
+
+/-- `signingParamsForPublicKey(pub, requestedSigAlgo)`: `ok (digest to sign, algorithm written)` or an error. -/
+def signingParams (k : KeyKind) (req : Nat) : Res (Nat × Nat) :=
+  match defaultParams k with
+  | none => .err
+  | some (pka, h, a) =>
+    if req = 0 then .ok (h, a)
+    else
+      match findRow req sigDetails with
+      | none => .err                                   -- "unknown SignatureAlgorithm"
+      | some r =>
+        if r.pka ≠ pka then .err                       -- "does not match private key type"
+        else if r.hash = 0 then .err                   -- "cannot sign with hash function requested"
+        else .ok (r.hash, r.algo)
+
+/-- the `switch algo` at the head of `x509.CheckSignatureFromKey`: the digest the VERIFIER computes
+    (`some 0` = Ed25519, no pre-hash; `none` = insecure / unsupported). -/
+def verifyHash (algo : Nat) : Option Nat :=
+  if algo = 2 then some 2
+  else if algo = 3 ∨ algo = 7 ∨ algo = 9 then some 3
+  else if algo = 4 ∨ algo = 13 ∨ algo = 8 ∨ algo = 10 then some 5
+  else if algo = 5 ∨ algo = 14 ∨ algo = 11 then some 6
+  else if algo = 6 ∨ algo = 15 ∨ algo = 12 then some 7
+  else if algo = 16 then some 0
+  else none
+
 end ZV.C13
